@@ -153,6 +153,11 @@ impl Api {
                 let n = cv.len() as i64;
                 let csa = sel.map(lambda1(move |k: &i64| cv[k.rem_euclid(n) as usize].clone(), deps));
                 self.h.insert(x.to_string(), H::S(Cell::switch_s(&csa))); ok() }
+            ["switchdyn", x, sel, s, op] => { fresh!(x); let (sel, base, op) = (need!(self.c(sel)), need!(self.s(s)), need!(num(op)));
+                // dynamic switching: every update of the selector builds a fresh candidate stream inside the closure
+                let dep = base.to_dep();
+                let csa = sel.map(lambda1(move |k: &i64| { let k = *k; base.map(move |v: &i64| f2(op, *v, k)) }, vec![dep]));
+                self.h.insert(x.to_string(), H::S(Cell::switch_s(&csa))); ok() }
             ["switchc", x, sel, cands @ ..] => { fresh!(x); let sel = need!(self.c(sel)); if cands.is_empty() { return "skip".into(); }
                 let mut cv: Vec<Cell<i64>> = vec![]; for c in cands { cv.push(need!(self.c(c))); }
                 let deps = cv.iter().map(|c| c.to_dep()).collect();
@@ -200,7 +205,8 @@ impl Api {
                 self.h.clear();
                 self.ctx.transaction(|| {});
                 self.ctx.impl_.collect_cycles();
-                format!("leak={}", self.ctx.impl_.node_count())
+                let ka = self.ctx.impl_.with_data(|d: &mut SodiumCtxData| d.keep_alive.len());
+                if ka == 0 { format!("leak={}", self.ctx.impl_.node_count()) } else { format!("leak={} listeners-still-rooted={ka}", self.ctx.impl_.node_count()) }
             }
             _ => "bad-op".into(),
         }
